@@ -629,6 +629,35 @@ theorem C07_optimal_perturb (τ tol : Rat) (n m : Nat) (a b : Mat) (out : List E
   have h2 := value_perturb τ n m a b hc M (fun p hp => ⟨hM.rows_lt p hp, hM.cols_lt p hp⟩)
   grind
 
+open SE.MatchCall in
+/-- What the check's judgement against the *independent* affinity matrix `a` means (`holdsInd`, tolerance `τ` per
+    entry because the code computes in binary64): cover, every reported pair has a positive reported affinity
+    within `τ` of the independent affinity of that pair, one-sided matches report 0, and every one-to-one pairing
+    is worth at most `total out + tol + |M| τ` under `a`. -/
+theorem C07_holds_ind (τ tol : Rat) (hτ : 0 ≤ τ) (n m : Nat) (a : Mat) (out : List Entry)
+    (h : holdsInd τ tol n m a out = true) :
+    (srcs out).Perm (List.range n) ∧ (tgts out).Perm (List.range m) ∧
+    (∀ e ∈ out, ∀ i j, e.src = some i → e.tgt = some j →
+      0 < e.aff ∧ a i j - e.aff ≤ τ ∧ e.aff - a i j ≤ τ) ∧
+    (∀ e ∈ out, (e.src = none ∨ e.tgt = none) → e.aff = 0) ∧
+    (∀ M, PartialInjection n m M → value a M ≤ total out + tol + (M.length : Rat) * τ) := by
+  have hspec := (C07_holds_iff tol n m (snap τ a out) out).1 h
+  refine ⟨hspec.cover_src, hspec.cover_tgt, ?_, hspec.unpaired, ?_⟩
+  · intro e he i j hi hj
+    have hp := hspec.positive e he i j hi hj
+    have hr := hspec.reported e he i j hi hj
+    have hw := snap_within τ hτ a out i j
+    rw [hr]
+    exact ⟨hp, hw.1, hw.2⟩
+  · exact C07_optimal_perturb τ tol n m a (snap τ a out) out (snap_close τ hτ n m a out) h
+
+open SE.MatchCall in
+/-- for matrices beyond the brute force the optimum of the snapped matrix is certified: same verdict -/
+theorem C07_holds_ind_cert (τ tol : Rat) (n m : Nat) (a : Mat) (u v : Nat → Rat) (w : List (Nat × Nat))
+    (out : List Entry) (hc : certOk n m (snap τ a out) u v w = true) :
+    holdsIndCert τ tol n m a u v w out = holdsInd τ tol n m a out :=
+  C07_holds_by_cert tol n m (snap τ a out) u v w out hc
+
 /-- non-vacuity, and the scenario of seeded change C07-7 in the pure model: time stamps 1 s, 4 s against
     1.3 s, 4.2 s are all unmatched with the 10 ms default buffer and matched with affinities 7/13 and 2/3 with a
     buffer of 1/2 s -/
@@ -644,6 +673,14 @@ example : (match SE.MatchCall.matchCall (fun _ _ _ => [(0, 0)]) ⟨[.timeStamp 1
 example : (SE.MatchCall.matchCall (fun _ _ _ => [(0, 0)])
     ⟨[.boundingBox 0 0 1 1], [.boundingBox 0 0 1 2], -1, 100⟩).toOption
     = some [⟨some 0, some 0, 1 / 2⟩] := by decide +kernel
+/-- a reported 0.6000000001 against the independent 3/5 passes with `τ = 2^-20`, fails with `τ = 0`; a stale
+    affinity (0 reported pairs where 3/5 was available) fails either way -/
+example : SE.MatchCall.holdsInd (1 / 1048576) (1 / 1048576) 1 1 (matOfRows [[3 / 5]])
+    [⟨some 0, some 0, 6000000001 / 10000000000⟩] = true := by decide +kernel
+example : SE.MatchCall.holdsInd 0 0 1 1 (matOfRows [[3 / 5]])
+    [⟨some 0, some 0, 6000000001 / 10000000000⟩] = false := by decide +kernel
+example : SE.MatchCall.holdsInd (1 / 1048576) (1 / 1048576) 1 1 (matOfRows [[3 / 5]])
+    [srcOnly 0, tgtOnly 0] = false := by decide +kernel
 example : SE.MatchCall.compatible (SE.MatchCall.matchSig ++ [⟨"solver", .keywordOnly, some (.num 0)⟩])
     SE.MatchCall.matchSig = true := by decide +kernel
 example : SE.MatchCall.compatible
